@@ -20,6 +20,8 @@ Line protocol of C01 (see harness/cmd/vh/c01.go):
   rowseq n {k i v} SetRowHeight / SetRowVisible / SetRowOutlineLevel in order on a new worksheet: <sheetData> afterwards
   colseq n {k a b v} SetColWidth(a..b, v) / SetColOutlineLevel(a, v) in order on a new worksheet: the <cols> list afterwards
                   (model: SaveCols.setCols = flatCols with the setter's replacer)
+  styleseq n {k a b c d e}  SetCellInt (p j i _ _ v) and SetCellStyle over a rectangle (s j1 i1 j2 i2 id) in order on a new
+                  worksheet: <sheetData> afterwards (model: SaveBook.styleRect = writeCell with setStyle over the rectangle)
   sstseq n1 {hex} n2 {hex}  SetCellStr on A1.., save+open, SetCellStr on the next cells: shared-string index of every
                   cell and the table (model: SaveSst.setCellString, SaveSst.opened)
   hmerge n {c1 r1 c2 r2} the stored merged-range list of a worksheet before a real save; answer = the stored list after
@@ -281,6 +283,17 @@ def stepSst (w : List String) : String :=
     | none => "bad-op"
   | [] => "bad-op"
 
+/-- `styleseq n { kind a b c d e }`: `p j i _ _ v` = SetCellInt, `s j1 i1 j2 i2 st` = SetCellStyle -/
+def applyStyleSeq : Nat → List String → List Grid.Row → Option (List Grid.Row)
+  | 0, [], rows => some rows
+  | n + 1, kind :: a :: b :: c :: d :: e :: w, rows =>
+    match a.toNat?, b.toNat?, c.toNat?, d.toNat?, e.toInt? with
+    | some a, some b, some c, some d, some e =>
+      if kind = "p" then applyStyleSeq n w (writeCell rows b a (setInt e))
+      else applyStyleSeq n w (styleRect rows b a d c e.toNat)
+    | _, _, _, _, _ => none
+  | _, _, _ => none
+
 def step (w : List String) : String :=
   match w with
   | ["bm", h] => match decodeU h with
@@ -317,6 +330,11 @@ def step (w : List String) : String :=
   | "colseq" :: n :: g => match n.toNat? with
     | some n => match applyColSeq n g none with
       | some st => "ok " ++ showCols (st.getD [])
+      | none => "bad-op"
+    | none => "bad-op"
+  | "styleseq" :: n :: g => match n.toNat? with
+    | some n => match applyStyleSeq n g [] with
+      | some rows => "ok " ++ showGrid rows
       | none => "bad-op"
     | none => "bad-op"
   | "sstseq" :: g => stepSst g
